@@ -9,7 +9,7 @@
    * int predicate argument n: PTree (Node ''int'' |n| (n<0) [])   (see parg_int)
    * an optional `[...]` of a match expression: the harness flattens it into dummy elements
      ''['' , ... , '']'' (its __str__ is exactly that concatenation). *)
-From ISLA Require Export Formula.
+From ISLA Require Export Formula Outcome.
 From Coq Require Import ZArith.
 From Coq Require Import String Ascii.
 
@@ -237,7 +237,11 @@ Definition read_lit (s : str) : option (str * str) :=
   end.
 
 (* ---------- smt_expr_to_str ---------- *)
-Inductive opk := KInRe | KSeqConcat | KReConcat | KStrToInt | KLoop (a b : N) | KPower (a : N) | KOther.
+(* KLoopShort ps: an application of kind Z3_OP_RE_LOOP that carries fewer than two parameters
+   (`(_ re.loop n)`: at least n; `(re.loop r lo hi)`: bounds as arguments): the code indexes
+   f.params()[1] and raises IndexError *)
+Inductive opk := KInRe | KSeqConcat | KReConcat | KStrToInt | KLoop (a b : N) | KLoopShort (ps : list N)
+               | KPower (a : N) | KOther.
 Inductive sx :=
 | SVar (n : str)                (* is_z3_var: str(f) *)
 | SStr (s : str)                (* is_string_value: the Z3 string as code points *)
@@ -257,6 +261,7 @@ Definition op_text (k : opk) (name : str) : str :=
   | KInRe => lit "str.in_re"%string | KSeqConcat => lit "str.++"%string | KReConcat => lit "re.++"%string
   | KStrToInt => lit "str.to.int"%string
   | KLoop a b => lit "(_ re.loop "%string ++ dec_N a ++ [32] ++ dec_N b ++ [41]
+  | KLoopShort _ => []                       (* not reached: see sx_raises / unparse_res *)
   | KPower a => lit "(_ re.^ "%string ++ dec_N a ++ [41]
   | KOther => name
   end.
@@ -466,6 +471,20 @@ Fixpoint has_dup (l : list str) : bool :=
   match l with [] => false | x :: r => mem x r || has_dup r end.
 Definition K_numq_dup (f : cformula) : bool := has_dup (numq_names f).
 
+(* smt_expr_to_str raises IndexError (f.params()[1]) on a re.loop with fewer than two parameters;
+   parse_isla accepts `((_ re.loop 1) r)` and `(re.loop r 1 2)` *)
+Fixpoint sx_raises (e : sx) : bool :=
+  match e with
+  | SApp k _ args => (match k with KLoopShort _ => true | _ => false end) || existsb sx_raises args
+  | _ => false
+  end.
+Definition K_loop_arity (f : cformula) : bool := existsb sx_raises (fatoms f).
+
+(* unparse_isla with its exception as outcome *)
+Definition unparse_res (f : cformula) : res str :=
+  if K_loop_arity f then Raise IndexErr else Ok (unparse f).
+
 (* all recorded classes *)
 Definition K_any (f : cformula) : bool :=
-  K_smt_string f || K_smt_op f || K_mexpr_terminal f || K_shadow_const f || K_numq_dup f.
+  K_smt_string f || K_smt_op f || K_mexpr_terminal f || K_shadow_const f || K_numq_dup f
+  || K_loop_arity f.
